@@ -46,6 +46,7 @@ var basePreamble = []string{
 	"(declare-fun streq ((Array Int Int) Int Int (Array Int Int) Int Int) Bool)",
 	"(declare-fun ifacekey (Int Int) Int)",
 	"(declare-fun identityboxed (Int) Bool)",
+	"(declare-fun cellcmp (Int) Bool)",
 	"(declare-fun strlt ((Array Int Int) Int Int (Array Int Int) Int Int) Bool)",
 	"(define-fun emptybase () (Array Int Int) ((as const (Array Int Int)) 0))",
 }
